@@ -328,8 +328,33 @@ func (it *Interp) opOpenQuery(op *Op) {
 		})
 	case "qNext":
 		mq := it.M.Open[op.Q]
-		if mq == nil || mq.done {
-			panic("bad op: qNext on finished query is outside the generated domain (see C20)")
+		if mq == nil {
+			panic("bad op: qNext on unknown query")
+		}
+		if mq.done {
+			// Next on a query that is exhausted or closed: the model does not say whether this panics or returns false
+			// (builds are compared in C20), but it must not yield anything and must not touch the world's lock state -
+			// the lock bit of the finished query may already belong to another open query. A later Close of the same
+			// query is still "closing a finished query again" (harmless).
+			for _, b := range it.B {
+				oq := b.openQ[op.Q]
+				if oq == nil {
+					continue
+				}
+				for i := 0; i < op.N; i++ {
+					var ok bool
+					p := try(func() { ok = oq.q.Next() })
+					b.tr("next-on-finished panic=%v", p != nil)
+					if p == nil && ok {
+						fail("query|finished|next-true", "%s step %d: Next() on the finished query %d returned true", b.Name, it.Step, op.Q)
+					}
+				}
+			}
+			it.count("next-on-finished-query")
+			if it.M.OpenQ > 0 {
+				it.count("next-on-finished-query-while-others-open")
+			}
+			return
 		}
 		calls := op.N
 		exhaust := false
